@@ -231,6 +231,9 @@ class atom(boolean.AndRestriction):
         else:
             self.slot_operator = self.slot = self.subslot = self.repo_id = None
 
+        if not atom:
+            raise errors.MalformedAtom(orig_atom, "missing package")
+
         self.blocks = atom[0] == "!"
         if self.blocks:
             atom = atom[1:]
@@ -248,8 +251,11 @@ class atom(boolean.AndRestriction):
         else:
             self.blocks_strongly = False
 
+        if not atom:
+            raise errors.MalformedAtom(orig_atom, "missing package")
+
         if atom[0] in ("<", ">"):
-            if atom[1] == "=":
+            if atom[1:2] == "=":
                 self.op = atom[:2]
                 atom = atom[2:]
             else:
